@@ -294,6 +294,16 @@ let handle line =
        | None -> print_str (lit_ "ERR")
        | Some ((topic, payload), qos) ->
            print_str (str_of_Z qos @ lit_ "|" @ str_of_Z (Z.of_nat (nat_of_int (List.length topic))) @ lit_ "|" @ topic @ payload))
+  | "MQP" ->
+      (* the keyword arguments MQTTClient.write hands to the broker client *)
+      let pre = next_str c in
+      let line = next_str c in
+      (match client_write pre line with
+       | None -> print_str (lit_ "ERR")
+       | Some (((topic, qos), retain), payload) ->
+           print_str (str_of_Z qos @ lit_ (if retain then "|R|" else "|-|")
+                      @ (match payload with None -> lit_ "N" | Some p -> lit_ "S" @ p)
+                      @ lit_ "|" @ topic))
   | "MQR" ->
       let topic = next_str c in
       let payload = next_str c in
@@ -321,7 +331,7 @@ let handle line =
         | QFailed -> lit_ "RF" in
       print_str (List.concat (List.map (fun e -> show_e e @ lit_ "|") (receive_loop (evs nev []))))
   | "LC" ->
-      (* LC guarded v nchoices (M ok | S | T | U)*: lifecycle schedule *)
+      (* LC guarded v nchoices (M ok | S | T | U | C | R)*: lifecycle schedule *)
       let guarded = next_bool c in
       let v = nat_of_int (next_int c) in
       let n = next_int c in
@@ -333,6 +343,8 @@ let handle line =
             | "S" -> CSaver
             | "T" -> CTimer
             | "U" -> CMutate
+            | "C" -> CCancelOwner
+            | "R" -> CReenter
             | x -> failwith ("bad choice " ^ x) in
           chs (i - 1) (ch :: acc) in
       let s = lrun guarded (linit v) (chs n []) in
@@ -343,7 +355,7 @@ let handle line =
         | SEnded true -> "cancelled" | SEnded false -> "finished" in
       let f = match s.l_file with FHolds k -> string_of_int (int_of_nat k) | FPartial -> "partial" in
       let e = match s.l_exc with None -> "none" | Some EConnect -> "connect" | Some EBody -> "body"
-        | Some EDisconnect -> "disconnect" | Some ECancelled -> "cancelled" in
+        | Some EDisconnect -> "disconnect" | Some ECancelled -> "cancelled" | Some EOwnerCancelled -> "owner-cancelled" in
       print_str (lit_ (Printf.sprintf "%s %s file=%s reg=%d disc=%d exc=%s saves=%d" m sp f (int_of_nat s.l_reg)
                          (int_of_nat s.l_disc) e (int_of_nat s.l_saves)))
   | "FL" ->
